@@ -73,7 +73,14 @@ RETRY_ALPHA = ["r503m", "r500e", "e", "r200v", "r200e", "r404v", "r302e", "r502w
 CLASS_OF = {"e": "empty", "v": "valid", "m": "malformed", "w": "wrongtype", "b": "broken"}
 
 
-def make_pkg(pid, iface, statuses, faults=FAULTS, redirect=None, retry=None, logged=LOGGED, configured=None):
+# who answers: a middleware of the chain that answers by itself with a hand-built *http.Response (tag, logging, form of the response)
+STUBBED = [("stub-bare-log", True, "bare"), ("stub-bare", False, "bare"), ("stub-hdr-log", True, "hdr"), ("stub-full-log", True, "full"), ("stub-hdr", False, "hdr")]
+# a real *http.Transport and a real net/http server: how the server encodes its answers
+WIRE_MODES = ["identity", "gzip-negotiated", "gzip-always", "chunked"]
+WIRE_STATUSES = [200, 201, 204, 299, 301, 400, 404, 499, 500, 503, 599]
+
+
+def make_pkg(pid, iface, statuses, faults=FAULTS, redirect=None, retry=None, logged=LOGGED, configured=None, stubbed=None, wire=None):
     configured = [(t, o, status_spec(CFG_STATUSES_SMALL)) for t, o in CONFIGS] if configured is None else configured
     """one package = one interface; sub-cases = method x status x body, method x fault, redirect legs, retry-chain legs"""
     spec = statuses if isinstance(statuses, str) else status_spec(statuses)
@@ -81,7 +88,9 @@ def make_pkg(pid, iface, statuses, faults=FAULTS, redirect=None, retry=None, log
     args = ["rest", "-type=" + iface["name"]]
     return {"id": pid, "iface": iface, "files": files, "runs": [{"args": args}],
             "oracle": {".": restgen.c10_oracle("cs", iface, spec, BODIES, faults, redirect=redirect, retry=retry, logged=logged,
-                                               logged_statuses=status_spec(BOUNDARY), configured=configured)},
+                                               logged_statuses=status_spec(BOUNDARY), configured=configured,
+                                               stubbed=stubbed, stub_statuses=status_spec(BOUNDARY), wire=wire, wire_statuses=status_spec(WIRE_STATUSES))},
+            "stubbed": list(stubbed or []), "wire": list(wire or []),
             "statuses": expand(spec), "faults": list(faults), "redirect": redirect, "retry": retry or {}, "logged": list(logged or []),
             "configured": [(t, expand(st)) for t, _o, st in configured], "cmd": "shoot " + " ".join(args)}
 
@@ -130,6 +139,26 @@ def subcases(pkg):
                             "sexp": "(case %s rest-call (shape %s) (status %d) (body %s))" % (cid, shape, st, b),
                             "key": "%s|%s|log|%d|%s" % (shape, m["result"]["type"], st, b),
                             "cmd": json.dumps(dict(info, status=st, body=b, logged="chain"))})
+        for tag, lg, form in pkg.get("stubbed", []):
+            for st in BOUNDARY:
+                for b in BODIES:
+                    cid = "%s.%s.%s.%s.%s" % (pkg["id"], m["name"], tag, sid(st), b)
+                    out.append({"id": cid, "pkg": pkg["id"], "okey": "%s@%s/%d/%s/" % (m["name"], tag, st, b), "shape": shape, "status": st, "body": b, "fault": None,
+                                "answered": "middleware/%s%s" % (form, "+logging" if lg else ""),
+                                "sexp": "(case %s rest-call (shape %s) (status %d) (body %s))" % (cid, shape, st, b),
+                                "key": "%s|%s|%s|%d|%s" % (shape, m["result"]["type"], tag, st, b),
+                                "cmd": json.dumps(dict(info, status=st, body=b, stubbed=tag))})
+        for mode in pkg.get("wire", []):
+            for st in WIRE_STATUSES:
+                for b in BODIES:
+                    if b == "broken" or (st in (204, 304) and b != "empty"):
+                        continue
+                    cid = "%s.%s.wire-%s.%s.%s" % (pkg["id"], m["name"], mode, sid(st), b)
+                    out.append({"id": cid, "pkg": pkg["id"], "okey": "%s@wire-%s/%d/%s/" % (m["name"], mode, st, b), "shape": shape, "status": st, "body": b,
+                                "fault": None, "answered": "server/" + mode,
+                                "sexp": "(case %s rest-call (shape %s) (status %d) (body %s))" % (cid, shape, st, b),
+                                "key": "%s|%s|wire-%s|%d|%s" % (shape, m["result"]["type"], mode, st, b),
+                                "cmd": json.dumps(dict(info, status=st, body=b, wire=mode))})
         for tag, csts in pkg.get("configured", []):
             for st in csts:
                 for b in BODIES:
@@ -195,12 +224,14 @@ def subcases(pkg):
 def gen_pkgs(ctx):
     retry_all = {n: [",".join(t) for t in itertools.product(RETRY_ALPHA, repeat=n + 1)] for n in (0, 1, 2)}
     full_cfg = [(t, o, status_spec(BOUNDARY)) for t, o in CONFIGS]
-    pkgs = [make_pkg("x0", exhaustive_iface(), ALL_STATUSES, redirect=(REDIR_FIRSTS, REDIR_SECONDS, BODIES), retry=retry_all, configured=full_cfg)]
+    pkgs = [make_pkg("x0", exhaustive_iface(), ALL_STATUSES, redirect=(REDIR_FIRSTS, REDIR_SECONDS, BODIES), retry=retry_all, configured=full_cfg,
+                     stubbed=STUBBED, wire=WIRE_MODES)]
     # the same interface without context parameters: every outcome must be the same (and independent of Timeout(n))
     noctx = exhaustive_iface()
     for m in noctx["methods"]:
         m["ctx"] = None
-    pkgs.append(make_pkg("x1", noctx, ALL_STATUSES, redirect=(REDIR_FIRSTS[:2], REDIR_SECONDS[:2], ["valid"]), retry={1: retry_all[1][:16]}, configured=full_cfg))
+    pkgs.append(make_pkg("x1", noctx, ALL_STATUSES, redirect=(REDIR_FIRSTS[:2], REDIR_SECONDS[:2], ["valid"]), retry={1: retry_all[1][:16]}, configured=full_cfg,
+                         stubbed=STUBBED[:2], wire=WIRE_MODES[2:]))
     g = restgen.RestGen(ctx.rng)
     # every verb x every shape at least once, then random interfaces
     k = 0
@@ -219,7 +250,7 @@ def gen_pkgs(ctx):
         sts = sorted(set(ctx.rng.sample(BOUNDARY, 10) + [ctx.rng.randint(100, 599) for _ in range(ctx.n(20, 12))] + [ctx.rng.randint(-5, 1200)]))
         rt = {n: [",".join(ctx.rng.choice(RETRY_ALPHA) for _ in range(n + 1)) for _ in range(4)] for n in (1, 3)}
         pkgs.append(make_pkg("r%d" % k, g.c10_iface(), sts, redirect=([ctx.rng.choice(REDIR_FIRSTS)], [ctx.rng.choice(REDIR_SECONDS)], ["valid", "empty"]),
-                             retry=rt))
+                             retry=rt, stubbed=[STUBBED[k % len(STUBBED)]], wire=[WIRE_MODES[k % len(WIRE_MODES)]]))
     return pkgs
 
 
@@ -298,6 +329,7 @@ def run(ctx, obl):
         res.hist("shape", c["shape"])
         if c.get("cfg"):
             res.hist("restconf-options", c["cfg"])
+        res.hist("answered-by", c.get("answered", "scripted base transport"))
         if c["fault"]:
             res.hist("fault", c["fault"])
         elif c.get("retry"):
@@ -350,6 +382,10 @@ def replay(ctx, payload):
         kw["redirect"] = ([first], [second if pol == "follow" else 200], [b if pol == "follow" else "valid"])
     elif "retry" in info:
         kw["retry"] = {info["retry"][0]: [info["retry"][1]]}
+    elif "stubbed" in info:
+        kw["stubbed"] = [x for x in STUBBED if x[0] == info["stubbed"]]
+    elif "wire" in info:
+        kw["wire"] = [info["wire"]]
     elif "cfg" in info:
         kw["configured"] = [(t, o, status_spec([info.get("status", 200)])) for t, o in CONFIGS if t == info["cfg"]]
     elif "fault" in info and "logged" in info:
